@@ -41,6 +41,8 @@ def main():
         if args.replay:
             with open(args.replay) as f:
                 data = json.load(f)
+            if isinstance(data, dict):
+                data['_path'] = args.replay
             rc = mod.replay(ctx, data)
             sys.exit(rc)
         level, coverage, assumptions = mod.run(ctx)
